@@ -175,9 +175,11 @@ func genCall(r *Run, agent int, users []string, model map[string]*AUser, vias []
 			// the web interface: a change authorised by the old password (right or wrong), and what a
 			// replica sends for a remote hash upgrade - the old password and no new one
 			c.Via, c.OldPW = "api", m.PW
+			r.Count("probe:password-change-over-web-api")
 			switch r.Choose("web-update-kind", 4) {
 			case 0:
 				c.Kind, c.PW = "reauth", m.PW
+				r.Count("probe:upgrade-only-request-over-web-api")
 			case 1:
 				c.OldPW = "not-the-old-password"
 			}
